@@ -29,10 +29,16 @@ def tla_set(items) -> str:
     return "{" + ", ".join(f'"{x}"' if isinstance(x, str) else str(x) for x in items) + "}"
 
 
-def model_check(ctx: Ctx, consts: Dict[str, str], invariants: List[str], props: List[str] = (), timeout: int = 900):
-    text = cfg_text("Spec", consts, invariants, props)
+def model_check(ctx: Ctx, consts: Dict[str, str], invariants: List[str], props: List[str] = (), timeout: int = 900,
+                emit: bool = False):
+    """TLC on Grading.tla. With emit=True the same run also prints every Init configuration with its declarative
+    outcome (initial states are computed, and their constraint evaluated, by a single thread, so the records are
+    not interleaved even with 16 workers)."""
+    text = cfg_text("Spec", consts, invariants, props, constraints=["EmitCfg"] if emit else [])
     res = run_tlc("Grading", "mc.cfg", cfg_text=text, workers=16, timeout=timeout)
     ctx.add_tlc(res)
+    if emit and not res.records:
+        raise MachineryError("Grading.tla emitted no configurations")
     return res
 
 
